@@ -541,8 +541,9 @@ class Ctx:
         ev = {"property_id": self.prop, "tier": self.tier, "seed": self.seed, "level": "model_checking",
               "coverage": cov, "assumptions": self.assumptions, "wall_s": round(wall, 1),
               "violations": len(self.violations)}
-        os.makedirs(EVIDENCE_DIR, exist_ok=True)
-        with open(os.path.join(EVIDENCE_DIR, self.prop + ".json"), "w") as f:
+        ev_dir = EVIDENCE_DIR if not self.replay else self.work   # a replay does not overwrite the evidence
+        os.makedirs(ev_dir, exist_ok=True)
+        with open(os.path.join(ev_dir, self.prop + ".json"), "w") as f:
             json.dump(ev, f, indent=1, default=str)
         for sig, what in self.known_hits:
             print("KNOWN-FINDING: property=%s %s: %s" % (self.prop, sig, what.replace("\n", " ")[:400]))
